@@ -35,7 +35,9 @@ RULE = (
 )
 ASSUMPTIONS = [
     'keyvalue types come from the shipped engine database (trusted input here; C16 judges it)',
-    '$variables appear only in string/name-typed keyvalues known to the database and in output targets, and are always defined in the instance',
+    '$variables appear only in string/name-typed keyvalues known to the database and in output targets; a variable deleted from a '
+    'reused Instance\'s table is then an unknown variable: the longest still-defined name after the $ wins, otherwise the identifier '
+    'becomes "" (EntityFixup.substitute docstring); the table is never emptied',
     'keyvalues unknown to the database (no $ in them) are expected to be copied unchanged ("adds a copy of every ... entity")',
     'pitch keys (angle_negative_pitch on light_spot, angle_pitch / angle_negative_pitch on two classes of a small FGD handed in '
     'through engine_cache) and yaw keys are judged through the effective orientation: angles with the pitch key (negated for the '
@@ -310,6 +312,13 @@ def op():
         'same_as_prev': st.booleans(),     # repeat the previous collapse's template / name / style / fixups at this placement
         # the visgroup parameter: 0 = False (strip), 1 = True (keep the instance's groups), 2 = a VisGroup of the target map
         'vis': st.sampled_from([0, 0, 1, 2]),
+        # collapse the SAME Instance object again (moved / renamed / with its fixup table edited in place through the mapping
+        # API: delete a variable, change one, add it back) instead of building a new one
+        'reuse_inst': st.sampled_from([False, False, True]),
+        'fix_edits': st.lists(st.one_of(
+            st.tuples(st.just('del'), st.integers(0, 4)).map(list),
+            st.tuples(st.just('set'), st.integers(0, 4), st.sampled_from(['door1', 'x', '5', 'Relay_A', 'zz'])).map(list),
+        ), max_size=3),
         'pvec': vec3(512), 'pnum': coord(512),
     })
 
@@ -578,7 +587,16 @@ def ref_substitute(text: str, table: dict) -> str:
                     i += 1 + len(n)
                     break
             else:
-                raise HarnessError(f'generator produced an undefined $variable in {text!r}')
+                # no defined name fits: an identifier after the $ is an unknown variable and becomes the default ('');
+                # anything else leaves the $ alone (EntityFixup.substitute docstring)
+                j = i + 1
+                if j < len(text) and (text[j].isascii() and (text[j].isalpha() or text[j] == '_')):
+                    while j < len(text) and text[j].isascii() and (text[j].isalnum() or text[j] == '_'):
+                        j += 1
+                    i = j
+                else:
+                    out.append('$')
+                    i += 1
         else:
             out.append(text[i])
             i += 1
@@ -829,6 +847,7 @@ def execute(desc, ctx):
     used = {}
     any_rot = False
     prev = None
+    prev_inst = prev_table = None
     for n, op_ in enumerate(desc['ops']):
         if op_.get('same_as_prev') and prev is not None:
             op_ = dict(op_, tpl=prev['tpl'], name=prev['name'], style=prev['style'], fixval=prev['fixval'])
@@ -841,8 +860,26 @@ def execute(desc, ctx):
         for var, val in (('pvec', fmt_vec(op_.get('pvec', [0, 0, 0]))), ('pnum', fmt_vec([op_.get('pnum', 0.0)]))):
             fix.append(FixupValue(var, val, len(fix) + 1))
             table[var] = val
-        inst = Instance(op_['name'], 'inst.vmf', Vec(*op_['pos']), Matrix.from_angle(Angle(*op_['ang'])),
-                        FixupStyle(op_['style']), (), fix)
+        if op_.get('reuse_inst') and prev_inst is not None:
+            inst = prev_inst
+            inst.name, inst.pos, inst.orient = op_['name'], Vec(*op_['pos']), Matrix.from_angle(Angle(*op_['ang']))
+            inst.fixup_type = FixupStyle(op_['style'])
+            table = dict(prev_table)
+            for edit in op_.get('fix_edits', []):
+                var = VAR_POOL[edit[1] % len(VAR_POOL)]
+                if edit[0] == 'del':
+                    if var.casefold() in table and len(table) > 3:      # never down to an empty table
+                        del inst.fixup[var]
+                        del table[var.casefold()]
+                        ctx.label('fixup_var_deleted_between_collapses')
+                else:
+                    inst.fixup[var] = edit[2]
+                    table[var.casefold()] = edit[2]
+            ctx.label('instance_object_reused')
+        else:
+            inst = Instance(op_['name'], 'inst.vmf', Vec(*op_['pos']), Matrix.from_angle(Angle(*op_['ang'])),
+                            FixupStyle(op_['style']), (), fix)
+        prev_inst, prev_table = inst, table
         R = rm.mat_from_angle(*op_['ang'])
         T = list(op_['pos'])
         if any(a % 90 for a in op_['ang']):
@@ -1061,7 +1098,8 @@ SUBCHECKS = [
         must_hit=('arbitrary_rotation', 'repeat_collapse', 'nested_instance_with_fixups', 'displacement',
                   'unknown_key_collapsed_twice', 'reset_warnings', 'sidelist_before_later_brush_entity',
                   'hidden_solid_in_visible_entity', 'origin_with_variable', 'visgroup_mode:1', 'visgroup_mode:2',
-                  'copy_in_instance_visgroup', 'entity_solid_in_visgroup', 'pitch_key:pitch', 'pitch_key:negpitch', 'yaw_key')),
+                  'copy_in_instance_visgroup', 'entity_solid_in_visgroup', 'pitch_key:pitch', 'pitch_key:negpitch', 'yaw_key',
+                  'instance_object_reused', 'fixup_var_deleted_between_collapses')),
     Sub('collapse_all', execute_all, strategy=graph_strategy, quick=600, thorough=30000, floor=20,
         must_hit=('cyclic_graph', 'cyclic_mixed_case_classname', 'finishes', 'exceeds_limit')),
 ]
